@@ -25,11 +25,11 @@ type seqGen func(name string, t *tape.Tape) *seqgen.Shape
 var seqGens = map[string]seqGen{"C16": seqgen.GenC16, "C18": seqgen.GenC18}
 
 type seqViolation struct {
-	Shape   *seqgen.Shape
-	Index   int
-	Clause  string
-	Fault   string
-	Detail  string
+	Shape  *seqgen.Shape
+	Index  int
+	Clause string
+	Fault  string
+	Detail string
 }
 
 func seqShape(prop string, seed int64, i int) (*seqgen.Shape, *tape.Set) {
